@@ -97,9 +97,40 @@ func execSQLWindowOnce(c Case) ([][]string, bool) {
 		}
 	}
 	if len(rowOps) >= 2 {
+		mu.Lock()
 		sentinel = rowOps[len(rowOps)-2][1]
+		mu.Unlock()
 	}
-	for _, op := range rowOps {
+	awaitOK := true
+	for _, op := range c.Ops {
+		if op[0] == "await" {
+			// wait (no sleeping on a guess: poll the delivered lines) until a result holding row <id> has reached the sink
+			deadline := time.Now().Add(3 * time.Second)
+			for {
+				mu.Lock()
+				found := false
+				for _, l := range lines {
+					for _, x := range l[8:] {
+						if x == op[1] {
+							found = true
+						}
+					}
+				}
+				mu.Unlock()
+				if found {
+					break
+				}
+				if time.Now().After(deadline) {
+					awaitOK = false
+					break
+				}
+				time.Sleep(200 * time.Microsecond)
+			}
+			continue
+		}
+		if op[0] != "row" && op[0] != "late" { // `late`: a row like any other; the name tells the oracle that its session has been delivered
+			continue
+		}
 		id, _ := strconv.ParseInt(op[1], 10, 64)
 		r := map[string]interface{}{"id": id, "k": unhx(op[3])}
 		if op[2] != "none" {
@@ -119,6 +150,10 @@ func execSQLWindowOnce(c Case) ([][]string, bool) {
 	out := append([][]string(nil), lines...)
 	if !ok {
 		out = append(out, []string{"sentinel-lost"})
+	}
+	if !awaitOK {
+		out = append(out, []string{"await-timeout"})
+		ok = false
 	}
 	return out, ok
 }
